@@ -147,6 +147,8 @@ func (h *runner) check(q query, phase string) {
 					cls = "" // an aggregate has no rows of one timestamp to reorder
 					if q.hasBoolFirst() {
 						cls = "first-bool-ties"
+					} else if q.loneExtreme() {
+						cls = "extreme-time-ties"
 					}
 				}
 				h.violation(firstLine+i, cls, fmt.Sprintf("ds=%d ["+h.dp.text()+"] %s answers %s under [%s] and %s under [%s] (%s); data: %s; history: %s", h.idx, q.sql(), clip(rawTexts[0]), h.configs[0].text(), clip(rawTexts[i]), h.configs[i].text(), phase, clip(h.d.text()), h.d.history()))
